@@ -1,6 +1,7 @@
 package checks
 
 import (
+	"net/url"
 	"sort"
 	"strings"
 
@@ -25,7 +26,7 @@ var witnesses = map[string][]string{
 	"Number":                           {"1.5", "-2e3", "7"},
 	"NumberOrPercent":                  {"50%", "12"},
 	"Paragraph":                        {"Some text, ok (fine)", "x"},
-	`[a-zA-Z]{2,20}`:                   {"en", "enGB"},
+	`[a-zA-Z]{2,20}`:                   {"en", "enGB", "en-GB", "zh-Hant"},
 	`[a-zA-Z0-9\:\-_\.]+`:              {"a1", "sec:1.2_x-y"},
 	`(?i)^(|open)$`:                    {"", "open"},
 	`^([\p{L}\p{N}_-]+)$`:              {"map1"},
@@ -74,7 +75,18 @@ func attrWitnesses(v *spec.View, el, key string, strict bool) []string {
 		sort.Strings(schemes)
 		for _, s := range schemes {
 			if len(v.Schemes[s]) > 0 {
-				continue // custom-checked schemes are left to C03
+				// custom-checked scheme: a witness is conforming when one of the registered checks accepts it
+				for _, w := range urlWitnesses[s] {
+					if u, err := url.Parse(w); err == nil {
+						for _, fn := range v.Schemes[s] {
+							if f := spec.URLPolicies[fn]; f != nil && f(u) {
+								out = append(out, w)
+								break
+							}
+						}
+					}
+				}
+				continue
 			}
 			out = append(out, urlWitnesses[s]...)
 		}
